@@ -56,7 +56,7 @@ CODEC = {'test': 'TestVerifCodec', 'comp': 'codec', 'quick': {'VERIF_N': 1500}, 
 
 PROPS = {
     'C05': {'jobs': [RQ]},
-    'C16': {'jobs': [GENF, RQ, ASND]},
+    'C16': {'jobs': [GENF, RQ, ASND, RSD]},
     'C01': {'jobs': [REASM, E2E_T], 'assumptions': [
         'component theorem: the association hands each TSN to the stream at most once (C05) and chunks are the sender\'s fragments',
         'fewer than 2^15 ordered messages of a stream outstanding (SSN half-space; known finding D15); fewer than 2^31 TSNs/MIDs outstanding']},
